@@ -73,6 +73,12 @@ pub(crate) struct MemTable {
 	/// WAL number that was current when this memtable started receiving writes.
 	/// Used to determine which WALs can be safely deleted after flush.
 	wal_number: AtomicU64,
+	/// Arena capacity this memtable was created with.
+	arena_capacity: usize,
+	/// Arena bytes promised to batches (worst case per entry). A batch is only
+	/// inserted once all of its entries are covered, so an insert can never run
+	/// out of space half-way through a batch.
+	reserved: AtomicU64,
 }
 
 impl Default for MemTable {
@@ -90,6 +96,8 @@ impl MemTable {
 			skiplist,
 			latest_seq_num: AtomicU64::new(0),
 			wal_number: AtomicU64::new(0),
+			arena_capacity,
+			reserved: AtomicU64::new(skiplist::EMPTY_FOOTPRINT as u64),
 		}
 	}
 
@@ -151,14 +159,18 @@ impl MemTable {
 	/// `arena_capacity` bytes. A batch for which this is false may fail half-way
 	/// through [`MemTable::add`] even right after a rotation.
 	pub(crate) fn batch_fits_empty(batch: &Batch, arena_capacity: usize) -> bool {
-		let needed: usize = batch
+		skiplist::EMPTY_FOOTPRINT + Self::batch_footprint(batch) <= arena_capacity
+	}
+
+	/// Upper bound of the arena bytes the entries of `batch` take.
+	fn batch_footprint(batch: &Batch) -> usize {
+		batch
 			.entries
 			.iter()
 			.map(|e| {
 				skiplist::max_entry_footprint(e.key.len(), e.value.as_ref().map_or(0, |v| v.len()))
 			})
-			.sum();
-		skiplist::EMPTY_FOOTPRINT + needed <= arena_capacity
+			.sum()
 	}
 
 	/// Adds a batch of operations to the memtable.
@@ -171,6 +183,17 @@ impl MemTable {
 	/// * `starting_seq_num` - The starting sequence number for this batch (records get consecutive
 	///   numbers)
 	pub(crate) fn add(&self, batch: &Batch) -> Result<()> {
+		// All or nothing: the skiplist cannot un-insert, and entries of a batch
+		// that later fails would become visible once the horizon passes their
+		// sequence numbers. Reserve room for the whole batch first; if it is not
+		// there, report ArenaFull with nothing inserted (and without consuming
+		// arena space, so an empty memtable stays usable).
+		let needed = Self::batch_footprint(batch) as u64;
+		let before = self.reserved.fetch_add(needed, Ordering::AcqRel);
+		if before + needed > self.arena_capacity as u64 {
+			self.reserved.fetch_sub(needed, Ordering::AcqRel);
+			return Err(crate::Error::ArenaFull);
+		}
 		let highest_seq_num = self.apply_batch_to_memtable(batch)?;
 		self.update_latest_sequence_number(highest_seq_num);
 		Ok(())
